@@ -28,7 +28,7 @@ class PermRecorder:
         self.calls = []
 
     def __call__(self, a):
-        arr = np.array(a)
+        arr = np.arange(a) if isinstance(a, (int, np.integer)) else np.array(a)
         if arr.ndim != 1:
             raise core.InternalError("permutation called with a non 1-D argument")
         src = [int(v) for v in arr]
@@ -177,7 +177,7 @@ class C14(Prop):
         mk = self.gen_mask(rng, shape, [b, b], allow_empty=False)
         return {"kind": "prob", "shape": shape, "x": x, "y": y, "den": rng.choice([1, 4]),
                 "mask": None if rng.random() < 0.25 else mk["data"], "block": b, "partial": rng.random() < 0.5,
-                "n": rng.randint(1, 6), "perm": rng.choice(["random"] * 6 + ["identity", "reverse"]),
+                "n": rng.randint(1, 6), "perm": rng.choice(["random"] * 14 + ["identity", "reverse"]),
                 "pseed": rng.randrange(10 ** 9), "gen": [style, "mask:" + mk["kind"]]}
 
     def gen_mask(self, rng, shape, block, allow_empty=True):
@@ -421,6 +421,8 @@ class C14(Prop):
         sure = near = 0
         for s in rep["steps"] if sig_ok else []:
             vyi, ci = unrat(s["var_y"]), unrat(s["cov"])
+            if s["same"]:  # identical operands: r_i is r bit for bit, never counted by rs > r
+                continue
             if vyi == 0:
                 near += 1
                 continue
